@@ -36,20 +36,20 @@ type c08Spec struct {
 // modifier groups and their alternative values; a value is the literal text
 // put into the rule (possibly several comma-separated modifiers).
 var c08Values = map[string][]string{
-	"important":  {"important"},
-	"party":      {"third-party", "~third-party"},
-	"case":       {"match-case"},
-	"ct":         {"script", "image", "script,image", "~media", "script,~media"},
-	"domain":     {"domain=site.com", "domain=site.com|other.org", "domain=other.org|site.com", "domain=~other.org", "domain=other.org"},
-	"denyallow":  {"denyallow=a.com", "denyallow=b.com", "denyallow=a.com|b.com"},
-	"dnstype":    {"dnstype=A", "dnstype=AAAA", "dnstype=~AAAA", "dnstype=A|AAAA", "dnstype=AAAA|A"},
-	"ctag":       {"ctag=a", "ctag=a|b", "ctag=b|a", "ctag=~c", "ctag=b"},
-	"client":     {"client=a", "client=a|b", "client=b|a", "client=10.0.0.0/8", "client=~b", "client=a|10.0.0.0/8", "client=10.0.0.0/8|a",
+	"important": {"important"},
+	"party":     {"third-party", "~third-party"},
+	"case":      {"match-case"},
+	"ct":        {"script", "image", "script,image", "~media", "script,~media"},
+	"domain":    {"domain=site.com", "domain=site.com|other.org", "domain=other.org|site.com", "domain=~other.org", "domain=other.org"},
+	"denyallow": {"denyallow=a.com", "denyallow=b.com", "denyallow=a.com|b.com"},
+	"dnstype":   {"dnstype=A", "dnstype=AAAA", "dnstype=~AAAA", "dnstype=A|AAAA", "dnstype=AAAA|A"},
+	"ctag":      {"ctag=a", "ctag=a|b", "ctag=b|a", "ctag=~c", "ctag=b"},
+	"client": {"client=a", "client=a|b", "client=b|a", "client=10.0.0.0/8", "client=~b", "client=a|10.0.0.0/8", "client=10.0.0.0/8|a",
 		"client=Laptop", "client=laptop", "client=~Laptop", "client=~laptop", "client='Kids-PC'|Laptop", "client='Kids-PC'|laptop"},
 	"dnsrewrite": {"dnsrewrite=1.2.3.4", "dnsrewrite=1.2.3.5", "dnsrewrite=NOERROR;MX;10 m.e.org", "dnsrewrite=NOERROR;MX;20 m.e.org", "dnsrewrite=NOERROR;HTTPS;1 . alpn=h3", "dnsrewrite=NOERROR;HTTPS;1 . alpn=h2", "dnsrewrite=NOERROR;HTTPS;1 .", "dnsrewrite=NOERROR;SRV;1 2 80 s.e.org", "dnsrewrite=NXDOMAIN", "dnsrewrite=REFUSED", "dnsrewrite=new.e.org", "dnsrewrite=NOERROR;TXT;hello", "dnsrewrite=::1",
 		"dnsrewrite=NOERROR;TXT;v=spf1;include-a", "dnsrewrite=NOERROR;TXT;v=spf1;include-b"},
-	"wl":         {"urlblock", "genericblock", "elemhide", "stealth"},
-	"bl":         {"popup"},
+	"wl": {"urlblock", "genericblock", "elemhide", "stealth"},
+	"bl": {"popup"},
 }
 
 var c08GroupsWeb = []string{"important", "party", "case", "ct", "domain", "denyallow", "dnstype", "ctag", "client", "dnsrewrite", "wl", "bl"}
